@@ -21,6 +21,9 @@ pub struct CloudSpec {
     /// the caller overrides the limits
     pub meta: CloudMeta,
     pub finalize: bool,
+    /// explicit clearing through the API: bit 0 set_intensity_limits(None), bit 1 set_color_limits(None)
+    #[serde(default)]
+    pub clear_limits: u8,
 }
 impl CloudSpec {
     pub fn points(&self) -> Vec<Vec<Val>> {
@@ -75,7 +78,7 @@ pub fn cloud_spec(s: &mut Src, prefixes: &[String], o: &GenOpts) -> CloudSpec {
     let proto = gen::valid_proto(s, &ProtoOpts { prefixes: prefixes.to_vec(), fat });
     let n = gen::point_count(s, &proto, o.max_values);
     let meta = gen::cloud_meta(s, o.density);
-    CloudSpec { guid: gen::guid(s), proto, n, seed: s.u64(), nan_ok: o.nan_ok, meta, finalize: true }
+    CloudSpec { guid: gen::guid(s), proto, n, seed: s.u64(), nan_ok: o.nan_ok, meta, finalize: true, clear_limits: 0 }
 }
 
 /// A program in which every call is expected to succeed.
@@ -96,7 +99,7 @@ pub fn valid_program(s: &mut Src, o: &GenOpts) -> Program {
     }
     // optional leading padding blob: sweeps the position of everything that follows
     if o.blobs && s.chance(1, 2) {
-        ops.push(Op::Blob(BlobSpec { len: (s.below(255) * 4 + s.below(2) * 1020) as u32, seed: s.u64() | 1 }));
+        ops.push(Op::Blob(BlobSpec { len: (s.below(255) * 4 + s.below(2) * 1020) as u32, seed: s.u64() | 1, chunk: 0 }));
     }
     let k = 1 + s.below(o.max_ops as u64) as usize;
     for _ in 0..k {
@@ -189,9 +192,9 @@ pub fn exec_image<T: std::io::Read + std::io::Write + std::io::Seek>(w: &mut E57
     for r in [&im.visual, &im.projection].into_iter().flatten() {
         let fmt = if r.jpeg { ImageFormat::Jpeg } else { ImageFormat::Png };
         let data = r.data.bytes();
-        let mut data_r: &[u8] = &data;
+        let mut data_r = gen::Trickle { data: &data, chunk: r.data.chunk as usize, calls: 0 };
         let mask = r.mask.as_ref().map(|m| m.bytes());
-        let mut mask_r: Option<&[u8]> = mask.as_deref();
+        let mut mask_r: Option<gen::Trickle> = mask.as_deref().map(|d| gen::Trickle { data: d, chunk: r.mask.as_ref().map(|m| m.chunk as usize).unwrap_or(0), calls: 0 });
         let mask_dyn: Option<&mut dyn std::io::Read> = mask_r.as_mut().map(|m| m as &mut dyn std::io::Read);
         match r.kind {
             RepKind::Visual => call!(tr, "add_visual_reference", iw.add_visual_reference(fmt, &mut data_r, rep_props_visual(r), mask_dyn)),
@@ -300,6 +303,12 @@ pub fn exec_cloud<T: std::io::Read + std::io::Write + std::io::Seek>(w: &mut E57
     let proto: Vec<Record> = c.proto.iter().map(rec_to_e57).collect();
     let mut pw = call!(tr, "add_pointcloud", w.add_pointcloud(&c.guid, proto));
     apply_cloud_meta(&mut pw, &c.meta);
+    if c.clear_limits & 1 != 0 {
+        pw.set_intensity_limits(None);
+    }
+    if c.clear_limits & 2 != 0 {
+        pw.set_color_limits(None);
+    }
     for i in 0..c.n as usize {
         let vals: Vec<RecordValue> = c.proto.iter().enumerate().map(|(j, r)| val_to_e57(&gen::value_at(&r.ty, c.seed, i, j, c.nan_ok), &r.ty)).collect();
         tr.current = format!("add_point#{i}");
@@ -330,7 +339,7 @@ pub fn exec(p: &Program, dev: MemDev, tr: &mut Trace) {
             Op::CoordMeta(v) => w.set_coordinate_metadata(v.clone()),
             Op::Blob(b) => {
                 let data = b.bytes();
-                let mut r: &[u8] = &data;
+                let mut r = gen::Trickle { data: &data, chunk: b.chunk as usize, calls: 0 };
                 let blob = call!(tr, "add_blob", w.add_blob(&mut r));
                 tr.blobs.push((blob.offset, blob.length));
             }
@@ -483,18 +492,30 @@ pub fn expected_scene(p: &Program) -> Scene {
 /// be compared with `expected_scene`.  Partial limit overrides are not
 /// asserted (the statements cover complete overrides only).
 pub fn mask_derived(actual: &mut Scene, expected: &mut Scene) {
+    mask_derived_with(actual, expected, &[])
+}
+
+/// `cleared[i]`: the clear_limits bits of cloud i (explicitly cleared limits must read back as absent).
+pub fn mask_derived_with(actual: &mut Scene, expected: &mut Scene, cleared: &[u8]) {
     actual.library_version = None;
     expected.library_version = None;
-    for (a, e) in actual.clouds.iter_mut().zip(expected.clouds.iter_mut()) {
+    for (ci, (a, e)) in actual.clouds.iter_mut().zip(expected.clouds.iter_mut()).enumerate() {
         a.meta.cart_bounds = None;
         a.meta.sph_bounds = None;
         a.meta.idx_bounds = None;
-        let partial_i = e.meta.intensity_limits.as_ref().map(|l| l.iter().any(|x| x.is_none())).unwrap_or(true);
+        let bits = cleared.get(ci).copied().unwrap_or(0);
+        let partial_i = bits & 1 == 0 && e.meta.intensity_limits.as_ref().map(|l| l.iter().any(|x| x.is_none())).unwrap_or(true);
+        if bits & 1 != 0 {
+            e.meta.intensity_limits = None;
+        }
+        if bits & 2 != 0 {
+            e.meta.color_limits = None;
+        }
         if partial_i {
             a.meta.intensity_limits = None;
             e.meta.intensity_limits = None;
         }
-        let partial_c = e.meta.color_limits.as_ref().map(|l| l.iter().any(|x| x.is_none())).unwrap_or(true);
+        let partial_c = bits & 2 == 0 && e.meta.color_limits.as_ref().map(|l| l.iter().any(|x| x.is_none())).unwrap_or(true);
         if partial_c {
             a.meta.color_limits = None;
             e.meta.color_limits = None;
@@ -632,15 +653,15 @@ pub fn sweep_programs(thorough: bool) -> Vec<Program> {
         }
         for (k, (proto, n)) in variants.into_iter().enumerate() {
             let cloud = |guid: &str, n: u32, seed: u64| {
-                Op::Cloud(CloudSpec { guid: guid.to_string(), proto: proto.clone(), n, seed, nan_ok: true, meta: CloudMeta::default(), finalize: true })
+                Op::Cloud(CloudSpec { guid: guid.to_string(), proto: proto.clone(), n, seed, nan_ok: true, meta: CloudMeta::default(), finalize: true, clear_limits: 0 })
             };
             out.push(Program {
                 guid: format!("{{sweep-{res}-{k}}}"),
                 ops: vec![
-                    Op::Blob(BlobSpec { len: 4 * res, seed: 2 * res as u64 + 1 }),
+                    Op::Blob(BlobSpec { len: 4 * res, seed: 2 * res as u64 + 1, chunk: 0 }),
                     cloud("{first}", n, res as u64 * 31 + k as u64),
                     cloud("{second}", 3, 5),
-                    Op::Blob(BlobSpec { len: 3, seed: 9 }),
+                    Op::Blob(BlobSpec { len: 3, seed: 9, chunk: 0 }),
                 ],
                 end: End::Finalize,
             });
